@@ -85,3 +85,61 @@ func TestShared(t *testing.T) {
 		wg.Wait()
 	}
 }
+
+// TestSharedSameKey: the goroutines use the SAME key bytes (equal contents in their own slices, and one slice shared
+// read-only), and several goroutines evaluate ONE garbling at once: anything the circuit caches per key, and the
+// tables of a garbling, are then really shared.
+func TestSharedSameKey(t *testing.T) {
+	d := circgen.Desc{In: []int{2}, Out: []int{2}, Gates: []circgen.G{{2, 0, 1}, {3, 2, 0}, {4, 3, 0}, {2, 4, 1}}}
+	c := d.Build()
+	shared := []byte("0123456789abcdef")
+	for round := 0; round < 10; round++ {
+		g0, err := c.Garble(drbg.New(uint64(7000+round)), shared)
+		if err != nil {
+			t.Fatal(err)
+		}
+		var wg sync.WaitGroup
+		for tid := 0; tid < 6; tid++ {
+			wg.Add(1)
+			go func(tid int) {
+				defer wg.Done()
+				key := shared
+				if tid%2 == 1 {
+					key = append([]byte(nil), shared...)
+				}
+				for it := 0; it < 30; it++ {
+					g := g0
+					if tid >= 3 {
+						var err error
+						g, err = c.Garble(drbg.New(uint64(1000*tid+it)), key)
+						if err != nil {
+							t.Errorf("garble: %v", err)
+							return
+						}
+					}
+					in := []bool{(it+tid)&1 == 1, (it+tid)&2 == 2}
+					ref, _ := bitsim.Eval(c, in)
+					wires := make([]ot.Label, c.NumWires)
+					for i := range in {
+						wires[i] = circuit.LabelForBit(g.Wires[i], in[i])
+					}
+					if err := c.Eval(key, wires, g.Gates); err != nil {
+						t.Errorf("eval: %v", err)
+						return
+					}
+					for w := 2; w < c.NumWires; w++ {
+						if !wires[w].Equal(circuit.LabelForBit(g.Wires[w], ref[w])) {
+							t.Errorf("thread %d: wrong label on wire %d", tid, w)
+							return
+						}
+					}
+					if tid >= 3 {
+						g.Release()
+					}
+				}
+			}(tid)
+		}
+		wg.Wait()
+		g0.Release()
+	}
+}
